@@ -81,18 +81,33 @@ class Check:
         return rc == 0, out
 
     def coq_props(self, props_file, extra_targets=()):
-        """compile the property file and parse its Print Assumptions output."""
-        src = open(os.path.join(COQ, props_file)).read()
+        """compile the property file (and the source-facts obligations that belong to this property,
+        after regenerating their tables from the repository's current source) and parse the
+        Print Assumptions output."""
+        import facts
+        fact_files = list(facts.FACTS_FOR.get(self.pid, []))
+        if fact_files:
+            okg, _ = self.go_build()
+            if okg:
+                okf, flog = facts.regenerate(self)
+                self.facts_log = flog[-600:]
+                if not okf:
+                    self.broken.append("source facts no longer extractable (harness/facts.go): %s" % flog[-600:])
+        src = "\n".join(open(os.path.join(COQ, f)).read() for f in [props_file] + fact_files)
         stripped = re.sub(r"\(\*.*?\*\)", "", src, flags=re.S)
         theorems = re.findall(r"^\s*(?:Theorem)\s+([A-Za-z0-9_']+)", stripped, flags=re.M)
-        ok, log = self.coq_build([props_file] + list(extra_targets))
+        ok, log = self.coq_build([props_file] + fact_files + list(extra_targets))
         res = {"file": props_file, "theorems": theorems, "obligations": len(theorems), "discharged": 0,
                "axioms": [], "ok": ok, "log": log[-3000:]}
         hits = self.forbidden_scan()
         res["forbidden_hits"] = hits
         if ok:
-            rc, out = sh("timeout 900 coqc -R . FV -w -notation-overridden,-deprecated-hint-without-locality,"
-                         "-deprecated-instance-without-locality %s" % props_file, cwd=COQ, timeout=1000)
+            rc, out = 0, ""
+            for pf in [props_file] + fact_files:
+                rc1, out1 = sh("timeout 900 coqc -R . FV -w -notation-overridden,-deprecated-hint-without-locality,"
+                               "-deprecated-instance-without-locality %s" % pf, cwd=COQ, timeout=1000)
+                rc = rc or rc1
+                out += out1
             res["ok"] = rc == 0
             if rc != 0:
                 res["log"] = out[-3000:]
@@ -214,6 +229,8 @@ class Check:
               "assumptions": assumptions or [], "wall_s": round(wall, 2), "violations": len(self.violations)}
         with open(os.path.join(VERIF, "evidence", "%s.json" % self.pid), "w") as f:
             json.dump(ev, f, indent=1, default=str)
+        if REPO != "/repo":
+            sh("git checkout -- coq/Generated", cwd=VERIF, timeout=60)
         for fid, what in sorted(self.known_hits.items()):
             print("KNOWN-FINDING: property=%s %s [%s]" % (self.pid, what, fid))
         for path, suffix in self.violations:
